@@ -302,7 +302,56 @@ func c13Model(c *hx.Ctx, r *hx.RNG) {
 			return
 		}
 	}
-	// String() is Text('g', 10); %s and an unknown verb go through Format
+	// the other routes through Format: %s ('g', precision 10 unless given), %v without a precision (every digit), %b
+	// with flags and width, and verbs Format does not know
+	if r.Chance(20) && (v.Form != oracle.Finite || (v.LeadExp() > -3000 && v.LeadExp() < 3000)) {
+		flags := ""
+		for _, fl := range "+ -0" {
+			if r.Chance(30) {
+				flags += string(fl)
+			}
+		}
+		width := -1
+		if r.Chance(60) {
+			width = r.Range(0, 60)
+		}
+		format := "%" + flags
+		if width >= 0 {
+			format += strconv.Itoa(width)
+		}
+		var want string
+		switch r.Intn(4) {
+		case 0:
+			p := 10
+			if r.Bool() {
+				p = r.Range(0, 30)
+				format += "." + strconv.Itoa(p)
+			}
+			format += "s"
+			want = fmtEmulate(expectText(v, mode, 'g', p), flags, width, v.Form == oracle.Inf)
+		case 1:
+			format += "v"
+			want = fmtEmulate(expectText(v, mode, 'g', -1), flags, width, v.Form == oracle.Inf)
+		case 2:
+			format += "b"
+			want = fmtEmulate(expectPB(v, 'b', int64(xprec)), flags, width, v.Form == oracle.Inf)
+		default: // (%p and %T never reach a Formatter: fmt prints the pointer and the type itself)
+			vb := "dxXoqcUt"[r.Intn(8)]
+			format = "%" + string(vb) // (flags and width are not applied to the bad-verb text)
+			want = "%!" + string(vb) + "(*decimal.Decimal=" + expectText(v, mode, 'g', 10) + ")"
+		}
+		var gotF string
+		if pi := hx.Try(func() { gotF = fmt.Sprintf(format, x) }); pi != nil {
+			c.Violate("panic", fmt.Sprintf("Sprintf(%q) of %s: %s panic %q", format, v.Full(), pi.Class, pi.Text), "")
+			return
+		}
+		c.Count("fmt_other_verbs", 1)
+		if gotF != want {
+			c.Violate("wrong-text", fmt.Sprintf("Sprintf(%q) of %s (prec %d) mode=%s = %q, want %q", format, v.Full(), xprec, oracle.ModeNames[mode], trunc120(gotF), trunc120(want)), "")
+			return
+		}
+	}
+	// String() is Text('g', 10)
 	if r.Chance(10) {
 		if s := x.String(); s != expectText(v, mode, 'g', 10) {
 			c.Violate("wrong-text", fmt.Sprintf("String() of %s = %q, want %q", v.Full(), s, expectText(v, mode, 'g', 10)), carryPastMaxExp(v, mode, 'g', 10))
